@@ -8,6 +8,12 @@ COMMON_TRUSTED = [
 ]
 
 CONF = {
+    "C07": {
+        "n": {"quick": 800, "thorough": 12000},
+        "shard": 400,
+        "trusted_base": ["Go's sort.SliceStable is a stable sort (modelled by insertion sort; uniqueness of the stably sorted list is proved)", "cmp.Equal on scalars"],
+        "assumptions": ["path-safe keys"],
+    },
     "C02": {
         "n": {"quick": 1200, "thorough": 16000},
         "shard": 600,
